@@ -89,6 +89,21 @@ def check_case(case, stats=None):
     T = cands[case.get('pick', 0) % len(cands)]
     tname = T['name']
     mode = case.get('mode', 'rerun')
+    inner_name = tname
+    outer = False
+    if mode == 'rerun' and case.get('salt', 0) % 2 == 1 and \
+            not case.get('repeat'):
+        # every second case in which the failed task sits in a child
+        # execution: rerun the *parent task* (the task that called the
+        # sub-workflow) instead; a new child execution is started and the
+        # failed one is superseded
+        pw = snap['wf'][T['wf_ex_id']]
+        pt = pw['task_execution_id']
+        if pt and snap['task'][pt]['state'] == 'ERROR' and \
+                not snap['task'][pt].get('spec_with_items'):
+            T = snap['task'][pt]
+            tname = T['name']
+            outer = True
     new = case.get('new', ['ok', 'a'])
     is_wi = T.get('spec_with_items')
     reset = bool(case.get('reset', True)) or not is_wi
@@ -103,7 +118,9 @@ def check_case(case, stats=None):
             break
         outcome_now = ['err', 'again'] if (attempt == 0 and
                                            case.get('repeat')) else new
-        if is_wi:
+        if outer:
+            h.om.outcomes[inner_name] = [outcome_now]
+        elif is_wi:
             h.om.outcomes[tname] = [['items', {}, outcome_now]]
         else:
             h.om.outcomes[tname] = [outcome_now]
@@ -141,7 +158,28 @@ def check_case(case, stats=None):
                                         'state': pte['state']}})
                 break
             wid = pte['wf_ex_id']
+        paused_wf = None
+        if mode == 'rerun' and case.get('salt', 0) % 4 == 2:
+            # the operator pauses the task's workflow (or the root) while
+            # the new attempt is in flight; it completes during the pause
+            paused_wf = T['wf_ex_id'] if case.get('pick', 0) % 2 == 0 \
+                else res.wf_ex_id
+            pr = sim.call(cl.pause_workflow, paused_wf)
+            if pr[0] != 'ok':
+                paused_wf = None
         enginerun.run_until_quiet(sched, 800)
+        if paused_wf is not None:
+            tags.append('paused_during_rerun')
+            for _ in range(4):
+                cur = sim.snapshot()
+                still = [w for w in cur['wf'].values()
+                         if w['state'] == 'PAUSED']
+                if not still:
+                    break
+                still.sort(key=lambda w: (w['task_execution_id'] is not None,
+                                          w['created_at'], w['id']))
+                sim.call(cl.resume_workflow, still[0]['id'])
+                enginerun.run_until_quiet(sched, 800)
         if mode == 'skip':
             break
     for _round in range(4):
@@ -161,12 +199,16 @@ def check_case(case, stats=None):
         viol.append({'kind': 'undeclared-error',
                      'detail': {k: e.get(k) for k in
                                 ('type', 'msg', 'frame', 'where', 'label')}})
-    rows_a = _strip(enginerun.canon_rows(res, error_output=False), {tname})
+    rows_a = _strip(enginerun.canon_rows(res, error_output=False,
+                                         accepted_subs_only=outer),
+                    {tname, inner_name})
     # ---- run B: the new outcome from the start
     if mode == 'rerun' and not viol:
         cb = dict(c)
         ob = dict(case['outcomes'])
-        if not is_wi:
+        if outer:
+            ob[inner_name] = [new]
+        elif not is_wi:
             ob[tname] = [new]
         elif reset:
             ob[tname] = [['items', {}, new]]
@@ -184,14 +226,14 @@ def check_case(case, stats=None):
         cb['complete_async_at_end'] = True
         hb = history.run_history(cb, observe=False)
         rows_b = _strip(enginerun.canon_rows(hb.res, error_output=False),
-                        {tname})
+                        {tname, inner_name})
         # order independence of B (else skip)
         cb2 = dict(cb)
         cb2['sched'] = {'policy': 'lifo'}
         cb2['salt'] = 5
         hb2 = history.run_history(cb2, observe=False)
         rows_b2 = _strip(enginerun.canon_rows(hb2.res, error_output=False),
-                         {tname})
+                         {tname, inner_name})
         if rows_b != rows_b2:
             if stats:
                 stats.counters['differential_skipped_not_confluent'] += 1
@@ -228,6 +270,9 @@ def check_case(case, stats=None):
             for case_task in _all_tasks(case['prog']).values())
         if nested:
             tg.append('rerun_in_subworkflow')
+        if outer:
+            tg.append('rerun_of_task_calling_failed_subworkflow')
+        tg.extend(tags)
         if live:
             tg.append('rerun_while_parent_running')
         if is_wi:
@@ -235,7 +280,7 @@ def check_case(case, stats=None):
         if reruns > 1:
             tg.append('repeated_rerun')
         nontriv = nested or bool(is_wi) or reruns > 1 or downstream_join \
-            or live
+            or live or outer or bool(tags)
         stats.case(runner.fp([case['prog'], tname, mode, new, reset,
                               res.sched_taken]), nontriv, sorted(set(tg)),
                    common.sample_of(c, res, {'rerun_task': tname,
